@@ -16,6 +16,8 @@ CLAIMS = {
          'Address-based: covers pointer, planar, step, packed and bit-aligned locators. Dereference-adaptor (color_converted) and virtual locators have no addresses and are covered by value tags in the C09/C14 drivers only.', '4 C02'),
  'C03': ('Navigation: TLC explores every bounded sequence of ++/--/+=d of the implementation-shaped 1-D iterator over every shape (carry arithmetic with C++ / and %), the step-iterator ordering rule and 1-D traversability against the ideal linear-index model; for the real library the address reached through 12 access paths (view(x,y), row_begin[x], col_begin[y], begin()[i], at, rbegin, xy_at, x_at, y_at, it+=i, moved locator, cached location, axis iterators) is validated to be the same pixel for every view, and the random-access laws of the 1-D and x/y step iterators are validated for every start and offsets crossing row ends.',
          'Same organisations and compositions as C01/C02 (depth <= 2); locator move sequences are single 2-D moves plus axis-iterator walks, not arbitrary sequences.', '4 C03'),
+ 'C04': ('Pixel algorithms: TLC checks that the 1-D-traversable dispatch of fill/copy touches exactly the slots of the per-pixel loop for every pair of view descriptors (sizes, paddings, step signs, offsets), and every recorded call of copy / copy_and_convert / generate / fill / for_each(+position) / transform with 1 and 2 sources (+position) / equal on real views of 27 compatible organisation pairs x 3 view classes is validated by TLC: the whole destination buffer after the call must equal the bit-exact per-pixel loop applied to the buffer before (channels paired by colour; everything else is a frame condition), functors are called once per pixel in row-major order, the source is untouched and equal_pixels returns the per-pixel answer. Every (pair, class, algorithm group) is first an instantiation probe, so a combination that stops compiling is an observed violation.',
+         'Organisation pairs / view classes are an explicit table (harness/c04_cases.py). NDEBUG build. Unused bits inside a destination packed pixel are not constrained (they are inside the destination pixels). Float organisations use finite positive floats only (bitwise-comparable assumption).', '4 C04'),
 }
 NA_REASON = {}
 HOOK_COMMITS = []
